@@ -138,23 +138,37 @@ def check_simple(db, R, fn, cls, tn):
 
 
 def check_state_control(db, R, fn, cls):
+    """state_control< Control >::control< Rule >: every hook reaches the control state iff State::enable< Rule > and the wrapped control iff
+    Control< Rule >::enable (hidden internal rules never reach the wrapped control: it has not seen their start either)"""
     try:
         rows, nstates = run_hook(db, fn)
     except (Budget, Unmodelled) as e:
         R.broke('wrapper hook %s: %s' % (fn['disp'][:160], e)); return
     probs = []
+    # enable flags of the universe's controls / states (mirrors universe/u_dispatch.cc)
+    ctl_enabled = 'base_ctl0' not in (cls.get('s') or '')
+    state_enabled = not any('CtlState0' in (p.get('t') or '') for p in fn['params'])
+    # the control state is the first state parameter of the hook, the others go through unchanged
+    sidx = 0
     rest = list(range(1, nstates))
     for (ev, kind, val), cnt in rows.items():
         hooks = [e for e in ev if isinstance(e, tuple) and e[0] == 'hook']
         states = [e for e in ev if isinstance(e, tuple) and e[0] == 'state']
-        if len(hooks) != 1 or hooks[0][1] != fn['n']:
-            probs.append('wrapped control hook calls on one path: %s, expected exactly one %s' % ([h[1] for h in hooks], fn['n']))
-        elif list(hooks[0][2]) != rest:
-            probs.append('forwards the states %s to the wrapped control, expected %s (control state dropped)' % (list(hooks[0][2]), rest))
-        if len(states) != 1 or states[0][1] != fn['n'] or states[0][2] != 0:
-            probs.append('state hook calls on one path: %s, expected exactly one %s on the control state' % ([(s[1], s[2]) for s in states], fn['n']))
-        elif list(states[0][3]) != rest:
-            probs.append('passes the states %s to the state hook, expected %s' % (list(states[0][3]), rest))
+        if fn['n'] in ('raise', 'raise_nested', 'apply', 'apply0') and not ctl_enabled: continue      # only reachable when control is enabled
+        if ctl_enabled:
+            if len(hooks) != 1 or hooks[0][1] != fn['n']:
+                probs.append('wrapped control hook calls on one path: %s, expected exactly one %s' % ([h[1] for h in hooks], fn['n']))
+            elif list(hooks[0][2]) != rest:
+                probs.append('forwards the states %s to the wrapped control, expected %s (control state dropped)' % (list(hooks[0][2]), rest))
+        elif hooks:
+            probs.append('control is disabled for the rule (a hidden internal rule), but %s of the wrapped control is called: it never saw the start of this rule' % [h[1] for h in hooks])
+        if state_enabled:
+            if len(states) != 1 or states[0][1] != fn['n'] or states[0][2] != sidx:
+                probs.append('state hook calls on one path: %s, expected exactly one %s on the control state' % ([(s[1], s[2]) for s in states], fn['n']))
+            elif list(states[0][3]) != rest:
+                probs.append('passes the states %s to the state hook, expected %s' % (list(states[0][3]), rest))
+        elif states:
+            probs.append('the control state is not interested in the rule (enable< Rule > is false) but its %s is called' % [s2[1] for s2 in states])
     R.ob(ok=not probs, key=fn['disp'])
-    for p in probs:
+    for p in sorted(set(probs)):
         R.violation('H8', site(fn, cls), p, {'function': fn['disp']})
